@@ -553,9 +553,16 @@ def relabel_checks(ctx, pairs):
         hyp = rep.get("hyp") == "1"
         rigid = rep.get("rigid") == "1"
         cont = rep.get("cont") == "1"
-        ctx.case(("relabelF", _key(A), tuple(rho), repr(kappa)), nontrivial=hyp,
+        # phase 4: `spt` = Spec.pointHyp of the mesh AS STORED (orphan points included), `stored` = Resid.storedHyp
+        # (spt + centre slack).  `Spec.baseHyp` inspects the stripped mesh only; two coincident ORPHAN points with
+        # different values make the comparator report a false FAIL (documented limitation, PHASE3 witness `orphA`),
+        # so the implication "hypothesis => the implementation passes" needs `spt` as well.
+        spt = rep.get("spt") == "1"
+        stored = rep.get("stored") == "1"
+        ctx.case(("relabelF", _key(A), tuple(rho), repr(kappa)), nontrivial=hyp and spt,
                  tags=tags + ["base-hyp" if hyp else "base-nohyp", "rigid" if rigid else "not-rigid",
-                              "continuous-hyp" if cont else "coincident-or-nosep"])
+                              "continuous-hyp" if cont else "coincident-or-nosep",
+                              "stored-hyp" if stored else ("stored-sep-only" if spt else "stored-nohyp")])
         if rep.get("model") != "1":
             ctx.inconsistent(case, rep.get("model"), "Spec.relabelF differs from the harness's independent relabelling")
         if not hyp:
@@ -567,6 +574,9 @@ def relabel_checks(ctx, pairs):
         if cont and (not rigid or rep.get("pass") != "1"):
             ctx.inconsistent(case, f"rigid={rep.get('rigid')} pass={rep.get('pass')}",
                              "theorems C02_rigid_without_coincident_points / C02_no_false_fail_continuous")
+        if stored and (not rigid or rep.get("pass") != "1"):
+            ctx.inconsistent(case, f"rigid={rep.get('rigid')} pass={rep.get('pass')}",
+                             "theorems C02_rigid_distinguishable / C02_no_false_fail_distinguishable (baseHyp ∧ storedHyp)")
         sa, sb = impl_sorted(A), impl_sorted(B)
         if sa != sb or isinstance(sa, str):
             ctx.violation({"kind": "canon", "a": A, "b": B}, _diff(sa, sb), "identical sorted representations",
@@ -574,8 +584,63 @@ def relabel_checks(ctx, pairs):
         for src, ref in ((B, A), (A, B)):
             impl, _ = impl_compare(src, ref)
             if not passes(impl):
+                if not spt:
+                    # coincident points of the mesh as stored that the stripped mesh does not show (coincident orphan
+                    # points): outside Sep/Distinguishable of the stored mesh -- documented limitation, counted only
+                    ctx.extra["relabelF_stored_nohyp_fail"] = ctx.extra.get("relabelF_stored_nohyp_fail", 0) + 1
+                    continue
                 ctx.violation(_shrink_ladder({"kind": "ladder", "src": src, "ref": ref, "flags": [False, False, False]}), impl,
-                              "1:<every field passed>", what="relabelled pair inside BaseHyp does not compare as passed")
+                              "1:<every field passed>", what="relabelled pair inside BaseHyp (+ pointHyp of the stored mesh) does not compare as passed")
+
+
+# ---------------------------------------------------------------- noisy relabelled pairs: the phase-4 theorem, executed
+
+def noisy_checks(ctx, pairs):
+    """for base data sets A: N = A with every coordinate moved by noise far below the mesh tolerance (same
+    connectivity, same field arrays), B = py_relabel(N, rho, kappa).  The driver evaluates `Resid2.noisyFullHyp`
+    (joint Sep of both coordinate sets, BaseHyp of both with joint margins, storedHyp of A) and the ladder on
+    `Spec.relabelF rho kappa (withPoints A N.points)` in both roles; inside the hypothesis the model must pass
+    (theorem C02_no_false_fail_noisy_decidable) and so must the implementation"""
+    rng = ctx.rng
+    jobs = []
+    for A, _, tags, _ in pairs:
+        if len({t for t, _ in A["cells"]}) != len(A["cells"]):
+            continue
+        maxc = max([abs(c) for p in A["points"] for c in p] + [0.0])
+        if maxc == 0.0:
+            continue
+        noise = rng.choice([1e-13, 1e-11, 1e-10, 1e-10, 1e-9])
+        N = copy.deepcopy(A)
+        N["points"] = [[c + rng.uniform(-1, 1) * noise * maxc for c in p] for p in A["points"]]
+        kind = rng.choice(["identity", "reversal", "random", "random", "transposition"])
+        rho = perm_of_kind(rng, len(A["points"]), kind)
+        kappa = [perm_of_kind(rng, len(rows), rng.choice(["identity", "random", "reversal"])) for _, rows in A["cells"]]
+        B = py_relabel(N, rho, kappa)
+        line = ("c02noisy " + meshgen.enc_fields(A) + " " + meshgen.enc_fields(N) + " " + _enc_list(rho) + " " +
+                str(len(kappa)) + " " + " ".join(_enc_list(k) for k in kappa) + " " + meshgen.enc_fields(B))
+        jobs.append((A, N, B, rho, kappa,
+                     [t for t in tags if not t.startswith(("relabel=", "noise="))] + [f"noisyF={kind}", f"noisyF-noise={noise}"], line))
+    reps = _lean(ctx, [j[-1] for j in jobs])
+    for (A, N, B, rho, kappa, tags, _), rep in zip(jobs, reps):
+        case = {"kind": "noisyF", "a": A, "n": N, "b": B, "rho": rho, "kappa": kappa}
+        if rep is None:
+            continue
+        hyp = rep.get("hyp") == "1"
+        ctx.case(("noisyF", _key(A), _key(N), tuple(rho), repr(kappa)), nontrivial=hyp,
+                 tags=tags + ["noisy-hyp" if hyp else "noisy-nohyp"])
+        if rep.get("model") != "1" or rep.get("same") != "1":
+            ctx.inconsistent(case, f"model={rep.get('model')} same={rep.get('same')}",
+                             "Spec.relabelF (withPoints A N.points) differs from the harness's noisy relabelling")
+        if not hyp:
+            continue
+        if rep.get("pass") != "1":
+            ctx.inconsistent(case, f"pass={rep.get('pass')}",
+                             "theorem C02_no_false_fail_noisy_decidable: ladder passes on the noisy relabelled pair, both roles")
+        for src, ref in ((B, A), (A, B)):
+            impl, _ = impl_compare(src, ref)
+            if not passes(impl):
+                ctx.violation(_shrink_ladder({"kind": "ladder", "src": src, "ref": ref, "flags": [False, False, False]}), impl,
+                              "1:<every field passed>", what="noisy relabelled pair inside noisyFullHyp does not compare as passed")
 
 
 # ---------------------------------------------------------------- the comparator ladder
@@ -711,12 +776,18 @@ def run(ctx):
     CH = ctx.scale(110, 400)
     cli_budget = [ctx.scale(12, 200)]
     done = 0
+    noisy_pool = []
     while done < n_pairs:
         pairs = [gen_pair(ctx.rng, big=(ctx.tier == "thorough" and (done + j) % 10 == 0)) for j in range(min(CH, n_pairs - done))]
         sort_checks(ctx, pairs)
         ladder_checks(ctx, pairs, cli_budget)
         relabel_checks(ctx, pairs[:ctx.scale(40, 150)])
+        # (quick tier: small meshes only, the joint hypothesis is cubic in the number of points)
+        noisy_pool += [p for p in pairs[ctx.scale(40, 150):ctx.scale(40, 150) + ctx.scale(40, 100)]
+                       if ctx.tier == "thorough" or len(p[0]["points"]) <= 40][:ctx.scale(14, 100)]
         done += len(pairs)
+    # phase 4: noisy relabelled pairs; drawn AFTER the loop so that the random stream of the checks above is unchanged
+    noisy_checks(ctx, noisy_pool)
     if ctx.tier == "thorough":
         exhaustive(ctx)
     ctx.spec_viol = ctx.spec_viol[:50]
